@@ -8,7 +8,7 @@ fn waiting_path(o: &OpRec) -> bool {
     // Addr::send, Sender, WeakSender, Caller, WeakCaller go through the waiting closure;
     // Addr::call / ping / OwningAddr::call use the forcing one
     match (o.what, o.via) {
-        (OpWhat::Send, _) => true,
+        (OpWhat::Send | OpWhat::SendAbandoned, _) => true,
         (OpWhat::Call, Some(HKind::Caller | HKind::WeakCaller)) => true,
         _ => false,
     }
@@ -125,7 +125,7 @@ pub fn structural(v: &View, vd: &mut Verdict, prop: &str) {
 pub fn order(v: &View, vd: &mut Verdict, prop: &str) -> (usize, usize) {
     let subs: Vec<&OpRec> = v
         .client_ops()
-        .filter(|o| matches!(o.what, OpWhat::Send | OpWhat::Call | OpWhat::CallAbandoned | OpWhat::Ping) && o.actor.is_some())
+        .filter(|o| matches!(o.what, OpWhat::Send | OpWhat::SendAbandoned | OpWhat::Call | OpWhat::CallAbandoned | OpWhat::Ping) && o.actor.is_some())
         .collect();
     let enter_of = |o: &OpRec| -> Option<u64> {
         o.msg.and_then(|m| v.invs.iter().find(|i| i.msg == MsgRef::Client(m) && Some(i.actor) == o.actor).map(|i| i.enter))
